@@ -1,6 +1,7 @@
 package harness
 
 import (
+	"bytes"
 	"context"
 	"fmt"
 	"sync"
@@ -392,8 +393,37 @@ func evalRound(node *Node, in JRound, times int) (impl JRoundImpl, evals []strin
 		}
 		node.Enc.Take()
 		reports = append(reports, reps)
+		// the caller recycles the buffer Outcome returned: the same slice now holds ANOTHER outcome of the same length
+		// for this sequence number; Reports must answer for the bytes it is given now
+		if raw != nil && k == 1 {
+			if i := bytes.Index(raw, []byte(`"GasAllocated":`)); i >= 0 {
+				j := i + len(`"GasAllocated":`)
+				for j < len(raw) && raw[j] >= '0' && raw[j] <= '9' {
+					j++
+				}
+				if d := raw[j-1]; d >= '0' && d <= '8' {
+					raw[j-1] = d + 1
+					inPlace := repsOf(node, in.Seq, raw)
+					fresh := repsOf(node, in.Seq, append([]byte(nil), raw...))
+					raw[j-1] = d
+					if inPlace != fresh {
+						evals = append(evals, "RECYCLED-BUFFER: Reports on a buffer whose content was replaced answers for the old content")
+					}
+				}
+			}
+		}
 	}
 	return
+}
+
+func repsOf(node *Node, seq uint64, raw []byte) string {
+	rs, err := node.Plugin.Reports(context.Background(), seq, raw)
+	node.Enc.Take()
+	out := fmt.Sprint(err)
+	for _, rp := range rs {
+		out += "|" + hx(rp.ReportWithInfo.Report)
+	}
+	return out
 }
 
 func TestC02(t *testing.T) {
@@ -446,6 +476,12 @@ func TestC02(t *testing.T) {
 	}
 	r := NewRng(seed() + 2000)
 	n := tierN(150, 3000)
+	var again []JRound // the first rounds, evaluated once more after every other round of the process
+	defer func() {
+		for _, in := range again {
+			run2("gen-again", in, nil, nil)
+		}
+	}()
 	for c := 0; c < n; c++ {
 		w := newRoundWorld(r, roundOpts{maxPool: 25, byzantine: true, proposalsMax: 10})
 		var prev *ocr2keepersv3.AutomationOutcome
@@ -461,6 +497,9 @@ func TestC02(t *testing.T) {
 				oracles[i] = g.oracle
 			}
 			in := buildRound(w.n, w.f, w.digest, seq, prev, rawsK, oracles)
+			if len(again) < 12 {
+				again = append(again, in)
+			}
 			impl := run2("gen", in, w, r)
 			if impl.Outcome != nil {
 				o := fromJOutcome(*impl.Outcome)
